@@ -55,7 +55,7 @@ typedef struct oarc {
     ohmm *mid;    /* [np-2] */
     ohmm *leaf;   /* [n_ci] by right context, only those in rcset(to) */
 } oarc;
-typedef struct onull { int from, to; int32 lp; } onull;
+typedef struct onull { int from, to; int32 lp, raw; } onull;
 typedef struct ograph {
     int ns, start, final, nci, sil;
     oarc *a; int na; onull *nl; int nnl;
@@ -96,7 +96,7 @@ static int graph_build(ograph *g, decoder_t *d, int lang, int cionly, const vd_s
             fsg_link_t *l = fsg_arciter_get(it);
             if (fsg_link_wid(l) < 0) {
                 if (g->nnl == capn) { capn = capn ? capn * 2 : 64; g->nl = (onull *)realloc(g->nl, sizeof(onull) * (size_t)capn); }
-                g->nl[g->nnl].from = fsg_link_from_state(l); g->nl[g->nnl].to = fsg_link_to_state(l); g->nl[g->nnl].lp = fsg_link_logs2prob(l) >> SHIFT; ++g->nnl;
+                g->nl[g->nnl].from = fsg_link_from_state(l); g->nl[g->nnl].to = fsg_link_to_state(l); g->nl[g->nnl].raw = fsg_link_logs2prob(l); g->nl[g->nnl].lp = fsg_link_logs2prob(l) >> SHIFT; ++g->nnl;
             } else {
                 oarc *a; int32 dw; const char *ws = fsg_model_word_str(fsg, fsg_link_wid(l));
                 if (g->na == cap) { cap = cap ? cap * 2 : 64; g->a = (oarc *)realloc(g->a, sizeof(oarc) * (size_t)cap); }
@@ -113,6 +113,22 @@ static int graph_build(ograph *g, decoder_t *d, int lang, int cionly, const vd_s
                 ++g->na;
             }
         }
+    }
+    /* the oracle's own closure of the null arcs (best product over every chain, Floyd-Warshall on the unshifted log probabilities):
+     * a legal alignment may pass any chain of null transitions between two words, whatever composite arcs the library has prepared */
+    if (g->nnl > 0 && g->ns <= 160) {
+        int ns = g->ns, a2, b2, c2, n2 = 0; int64_t *M = (int64_t *)malloc(sizeof(int64_t) * (size_t)ns * (size_t)ns); const int64_t none = INT64_MIN / 4;
+        for (i = 0; i < ns * ns; ++i) M[i] = none;
+        for (i = 0; i < g->nnl; ++i) if (g->nl[i].from != g->nl[i].to && M[g->nl[i].from * ns + g->nl[i].to] < g->nl[i].raw) M[g->nl[i].from * ns + g->nl[i].to] = g->nl[i].raw;
+        for (c2 = 0; c2 < ns; ++c2) for (a2 = 0; a2 < ns; ++a2) { if (M[a2 * ns + c2] == none || a2 == c2) continue; for (b2 = 0; b2 < ns; ++b2) { int64_t v; if (b2 == a2 || b2 == c2 || M[c2 * ns + b2] == none) continue; v = M[a2 * ns + c2] + M[c2 * ns + b2]; if (v > M[a2 * ns + b2]) M[a2 * ns + b2] = v; } }
+        for (i = 0; i < ns * ns; ++i) if (M[i] != none) ++n2;
+        { int improved = 0, added = n2; onull *nn = (onull *)malloc(sizeof(onull) * (size_t)(n2 + 1)); int q = 0;
+          for (a2 = 0; a2 < ns; ++a2) for (b2 = 0; b2 < ns; ++b2) if (M[a2 * ns + b2] != none) { int64_t v = M[a2 * ns + b2]; if (v < -(1 << 30)) v = -(1 << 30); nn[q].from = a2; nn[q].to = b2; nn[q].raw = (int32)v; nn[q].lp = (int32)v >> SHIFT; ++q; }
+          for (i = 0; i < g->nnl; ++i) { if (g->nl[i].from == g->nl[i].to) continue; --added; if (M[g->nl[i].from * ns + g->nl[i].to] > g->nl[i].raw) ++improved; }
+          if (improved || added > 0) vh_count("grammars_where_the_oracle_closure_improves_on_the_library_arcs", 1);
+          free(g->nl); g->nl = nn; g->nnl = q; }
+        free(M);
+        vh_count("oracle_null_closures", 1);
     }
     /* right contexts that can follow at each state: first phones of the words leaving it (SIL for fillers), SIL, and the same one null arc further */
     g->rcset = (unsigned char *)calloc((size_t)g->ns * (size_t)g->nci, 1);
@@ -260,6 +276,37 @@ static void run(long i, vh_rng *r)
         vh_sb_printf(&g.text, "FSG_BEGIN added\nNUM_STATES 4\nSTART_STATE 0\nFINAL_STATE 3\nTRANSITION 0 1 1 %s\nTRANSITION 0 1 0.5 %s\nTRANSITION 1 2 1 %s\nTRANSITION 1 2 0.5 %s\nTRANSITION 2 3 1 %s\nTRANSITION 2 3 0.5 %s\nTRANSITION 3 3 0.2 %s\nTRANSITION 1 1 0.1 %s\nTRANSITION 0 2 0.3 \nFSG_END\n", w1, nw[1], nw[0], w3, w2, nw[0], nw[1], nw[0]);
         snprintf(g.desc, sizeof(g.desc), "fsg-text with two words added at run time (%s = %s; %s = %s)", nw[0], ph[0], nw[1], ph[1]);
         vh_count("grammars_with_words_added_at_run_time", 1);
+    }
+    else if (vh_chance(r, 0.12)) {
+        /* chains of weighted null transitions: the transcript with runs of optional words, each skipped by a likely null arc, plus
+         * unlikely direct null short cuts over several of them, the TRANSITION lines in random order.  The best alignment skips a
+         * run through the chain, whose product beats the short cut. */
+        static const char *en_t[] = { "go", "forward", "ten", "meters" }, *fr_t[] = { "avance", "de", "dix", "mètres" };
+        static const char *en_o[] = { "backward", "one", "two", "three", "left", "right", "stop", "seven" }, *fr_o[] = { "recule", "un", "deux", "trois", "quatre", "oui", "non", "sept" };
+        const char **tw = lang == VD_FR ? fr_t : en_t, **ow = lang == VD_FR ? fr_o : en_o;
+        struct { int from, to; double p; const char *w; } ln[64]; int nl2 = 0, st = 0, q, runs = vh_range(r, 1, 2), ord[64], opt_from[8], opt_to[8], nruns = 0;
+        int pos[2]; pos[0] = (int)vh_below(r, 5); pos[1] = (int)vh_below(r, 5);
+        for (q = 0; q <= 4; ++q) {
+            int rr2;
+            for (rr2 = 0; rr2 < runs; ++rr2) if (pos[rr2] == q && nruns < 8) {
+                int len = vh_range(r, 2, 5), j2; opt_from[nruns] = st;
+                for (j2 = 0; j2 < len; ++j2) { ln[nl2].from = st; ln[nl2].to = st + 1; ln[nl2].p = 1.0; ln[nl2].w = ow[vh_below(r, 8)]; ++nl2; ln[nl2].from = st; ln[nl2].to = st + 1; ln[nl2].p = VH_PICK(r, ((double[]){ 0.9, 0.9, 1.0, 0.8 })); ln[nl2].w = NULL; ++nl2; ++st; }
+                opt_to[nruns++] = st;
+            }
+            if (q < 4) { ln[nl2].from = st; ln[nl2].to = st + 1; ln[nl2].p = 1.0; ln[nl2].w = tw[q]; ++nl2; ++st; }
+        }
+        for (q = 0; q < nruns; ++q) {   /* direct short cuts inside each run */
+            int a2, b2, full = vh_chance(r, 0.6);   /* every short cut present: the closure has no arc to add and can only improve existing ones */
+            for (a2 = opt_from[q]; a2 < opt_to[q]; ++a2) for (b2 = a2 + 2; b2 <= opt_to[q]; ++b2) if (nl2 < 60 && (full || vh_chance(r, 0.6))) { ln[nl2].from = a2; ln[nl2].to = b2; ln[nl2].p = VH_PICK(r, ((double[]){ 0.01, 0.001, 0.1, 0.01 })); ln[nl2].w = NULL; ++nl2; }
+        }
+        for (q = 0; q < nl2; ++q) ord[q] = q;
+        for (q = nl2 - 1; q > 0; --q) { int b2 = (int)vh_below(r, (uint32_t)(q + 1)), t2 = ord[q]; ord[q] = ord[b2]; ord[b2] = t2; }
+        vd_gram_free(&g); memset(&g, 0, sizeof(g)); g.kind = VG_FSG_TEXT; g.lang = lang; vh_sb_init(&g.text); vfsa_init(&g.truth, 1, 0, 0);
+        vh_sb_printf(&g.text, "FSG_BEGIN chains\nNUM_STATES %d\nSTART_STATE 0\nFINAL_STATE %d\n", st + 1, st);
+        for (q = 0; q < nl2; ++q) vh_sb_printf(&g.text, "TRANSITION %d %d %g %s\n", ln[ord[q]].from, ln[ord[q]].to, ln[ord[q]].p, ln[ord[q]].w ? ln[ord[q]].w : "");
+        vh_sb_printf(&g.text, "FSG_END\n");
+        snprintf(g.desc, sizeof(g.desc), "fsg-text: transcript with %d runs of optional words skipped by null chains and unlikely short cuts, %d lines in random order", nruns, nl2);
+        vh_count("grammars_with_null_chains_and_short_cuts", 1);
     }
     vd_audio_make(r, lang, vh_chance(r, 0.1) ? 1 : 0, vh_chance(r, 0.5) ? vh_range(r, 800, 20000) : 64000, &a);
     vd_pattern_random(r, &p, 1); p.partial_prob = 0;
